@@ -114,7 +114,17 @@ func newMachine() *machine {
 		m.ev = append(m.ev, event{s: "t", tag: "tick", cum: cum, killed: k, over: o})
 		return c.Next(), nil
 	}, 0, false)
-	rt.SolemnlyDeclareCompliance(allFlags, emit, tick)
+	// reg(co) only tells the harness about a coroutine, so that it can be closed
+	// after the run even if the run never resumed it.
+	reg := r.SetEnvGoFunc(env, "reg", func(t *rt.Thread, c *rt.GoCont) (rt.Cont, error) {
+		if c.NArgs() > 0 {
+			if th, ok := c.Arg(0).TryThread(); ok && !m.closed {
+				note(th)
+			}
+		}
+		return c.Next(), nil
+	}, 1, false)
+	rt.SolemnlyDeclareCompliance(allFlags, emit, tick, reg)
 	return m
 }
 
@@ -249,6 +259,39 @@ func (m *machine) dispose() {
 			defer func() { recover() }()
 			m.libClose()
 		}()
+	}
+	// A coroutine that was created but never resumed cannot be reached by the
+	// harness (coroutine.wrap hides the thread); its parked goroutine keeps the
+	// runtime alive for the rest of the worker's life.  Empty the tables that
+	// hang off the runtime so that what stays pinned is small.
+	func() {
+		defer func() { recover() }()
+		env := m.R.GlobalEnv()
+		if pkg, ok := env.Get(rt.StringValue("package")).TryTable(); ok {
+			if loaded, ok := pkg.Get(rt.StringValue("loaded")).TryTable(); ok {
+				clearTable(loaded)
+			}
+			clearTable(pkg)
+		}
+		clearTable(env)
+		m.R.SetStringMeta(nil)
+	}()
+	m.ev, m.threads, m.seen = nil, nil, nil
+}
+
+func clearTable(t *rt.Table) {
+	var keys []rt.Value
+	k := rt.NilValue
+	for {
+		nk, _, ok := t.Next(k)
+		if !ok || nk.IsNil() {
+			break
+		}
+		keys = append(keys, nk)
+		k = nk
+	}
+	for _, k := range keys {
+		t.Set(k, rt.NilValue)
 	}
 }
 
